@@ -17,6 +17,7 @@ def handle (m : Mode) (ds : DState) (raw : String) : DState × String :=
         | "elem=cell" => Elem.cell
         | "elem=zst" => Elem.zst
         | "elem=unit" => Elem.unit
+        | "elem=nan" => Elem.nan
         | _ => Elem.u32
       ({ elem := elem }, s!"M case {ws.getD 1 ""} ## S ok")
     else
